@@ -11,8 +11,8 @@ import os as _os
 import threading
 
 ID = "C23"
-LEAN_MODULES = ["Ebv.Props.C23"]
-MODEL_MODULES = ["Ebv.Model.Parallel"]
+LEAN_MODULES = ["Ebv.Props.C23", "Ebv.Props.C23Hist"]
+MODEL_MODULES = ["Ebv.Model.Parallel", "Ebv.Model.FmmuLock"]
 DRIVER = "Drivers/C23.lean"
 THEOREMS = [
     "Ebv.C23.ethertypes_distinct", "Ebv.C23.single_installer", "Ebv.C23.fmmu_windows_disjoint",
@@ -20,11 +20,18 @@ THEOREMS = [
     "Ebv.C23.installed_while_running_partial", "Ebv.C23.ethertypes_distinct_fault_refuted",
     # the addresses ParallelEtherCat.get_fmmu_addr hands out (what a participant actually receives)
     "Ebv.C23.given_in_window", "Ebv.C23.given_nodup_blocks", "Ebv.C23.fmmu_given_disjoint",
+    # histories of the bitmap (Ebv.FmmuLock): every operation of FMMULock interleaved call by call, restarts, several objects, kills
+    "Ebv.C23Hist.alloc_remove_interleaving_safe", "Ebv.C23Hist.hist_given_in_window", "Ebv.C23Hist.hist_bitmap_exact",
+    "Ebv.C23Hist.hist_bitmap_exact_fresh", "Ebv.C23Hist.remove_preserves_others", "Ebv.C23Hist.remove_clears_own_bit",
+    "Ebv.C23Hist.unlocked_remove_refuted",
 ]
 TRUSTED = ["hand-written model Ebv.Parallel of ParallelEtherCat.run / LockFile / FMMULock, tied by exact correspondence of per-participant "
            "operation traces, final shared state, first violating prefix of each clause and the Quiet hypothesis under explicit schedules",
            "harness/vh/props/c23.py: emulated file system / bpf object / netlink layer and the thread-per-participant scheduler",
-           "ethertype range, bitmap size, slot count and window geometry regenerated into Ebv.Generated.Consts (probed on the real classes)"]
+           "ethertype range, bitmap size, slot count and window geometry regenerated into Ebv.Generated.Consts (probed on the real classes)",
+           "hand-written model Ebv.FmmuLock of FMMULock.__init__ / get_next_addr / remove used directly (scripts of operations per participant), "
+           "tied by exact correspondence of per-participant call traces, objects (number, addresses handed out, in use), final bitmap, lock holder "
+           "and first overlapping prefix under explicit schedules with kills"]
 ASSUMPTIONS = ["process identity and liveness are emulated: os.getpid() = 1000 + participant number (this is what the lock files contain), "
                "os.kill(pid, 0) and reading a lock file are scheduling points; a participant listed in case['crash'] is dead after its last "
                "scheduled operation (a dead one holds / installs / runs nothing for the oracle), ended ones are dead, all others alive; "
@@ -34,13 +41,23 @@ ASSUMPTIONS = ["process identity and liveness are emulated: os.getpid() = 1000 +
                "one scheduling point per call that touches shared state; makedirs(exist_ok), connect, EtherXDP(), close, sleep and the second "
                "os.open of the never-unlinked bitmap file commute with everything and are merged into the following operation; "
                "shutil.rmtree is one step",
-               "a crashed participant = one that is not scheduled again (its record lock stays held; a real crash would release it)"]
+               "a crashed participant = one that is not scheduled again (its record lock stays held; a real crash would release it)",
+               "histories of FMMULock objects: a participant is a thread of control with its own emulated pid; lockf excludes participants "
+               "from each other, an operation that does not call lockf is not excluded by anybody; killing a participant (schedule entry -1-p) "
+               "releases its record lock as the kernel does, writes nothing, and its windows are no longer in use; an object is in use from the "
+               "return of its constructor to the first system call of its remove()"]
 RULE = ("case = 2-4 participants (scripted randrange draws for ethertype and FMMU slot, number of get_fmmu_addr calls, optional attach fault), "
         "optional pre-existing bitmap file (initialised with random bits / wrong length), explicit schedule of participant numbers: "
         "the five witness schedules, a family of split points of the last-leaver race, random burst / fine-grained / session-boundary "
         "schedules, and the family 'one participant is killed holding its ethertype lock file, two others then start concurrently' "
         "(every single preemption + random fine-grained interleavings), and the family 'process numbers one bit apart (every bit of the 9-bit field, "
-        "both complements), 1 / 2 / maximal number of get_fmmu_addr calls, all running together'; the window clause is judged on the addresses the "
+        "both complements), 1 / 2 / maximal number of get_fmmu_addr calls, all running together'; the family 'the last leaver's FMMULock.remove() "
+        "is cut after each of its operations by a new session's FMMULock(...) whose number lies in the same bitmap byte / another byte / is the same, "
+        "a third participant then joins and draws that number'; histories of FMMULock objects used directly (scripts of new / get_next_addr / remove "
+        "per participant, 2-4 participants, schedule of single system calls and kills): remove() cut at every call by a constructor in the same byte "
+        "followed by a third allocation, remove() against remove(), restart with the same draw, two objects in one participant, a participant killed "
+        "at every point of constructor and remove(), random scripts and schedules over a small pool of numbers and earlier file contents; the oracle "
+        "keeps the set of objects in use itself (window start at construction, addresses handed out) and never reads the bitmap; the window clause is judged on the addresses the "
         "real ParallelEtherCat.get_fmmu_addr RETURNED (4096-byte blocks) as well as on the process windows; a participant left unscheduled is a crash; non-trivial = at least two participants performed 5+ operations")
 IF = "ifc23"
 LOCKDIR = f"/run/lock/ebpf.{IF}.lock"
@@ -193,6 +210,7 @@ class Sched:
         self.turn = None          # pid allowed to perform its next operation
         self.parked = [False] * n  # waiting at a gate
         self.ended = [False] * n   # thread finished
+        self.dead = [False] * n    # killed: never scheduled again
         self.stop = False
         self.local = threading.local()
 
@@ -233,7 +251,7 @@ class Sched:
     def grant(self, i):
         """let participant i perform one operation; returns when it waits at its next gate or has ended"""
         with self.cv:
-            if self.ended[i]:
+            if self.ended[i] or self.dead[i]:
                 return False
             self.turn = i
             self.cv.notify_all()
@@ -251,7 +269,7 @@ class Machine:
     """the emulated os / tempfile / shutil / fcntl / bpf / netlink layer seen by ebpfcat.ebpfcat and ebpfcat.lock"""
     def __init__(self, case):
         self.case = case
-        n = len(case["cfgs"])
+        n = len(case["scripts"] if "scripts" in case else case["cfgs"])
         self.w = World(bytes.fromhex(case["fm0"]) if case.get("fm0") is not None else None)
         self.s = Sched(n)
         self.tr = [[] for _ in range(n)]
@@ -259,13 +277,26 @@ class Machine:
         self.pos = 0                  # number of schedule entries consumed (for the emulated liveness)
         self.et_i = [0] * n
         self.fm_i = [0] * n
+        self.draws = [list(c["fm"]) for c in case["cfgs"]] if "cfgs" in case else [[] for _ in range(n)]
+        self.removing = [None] * n    # histories: the object whose remove() has been called and has not performed an operation yet
         self.et_fallback = [None] * n
         self.joined = [None] * n      # ethertype of the member file the participant created, while it exists for it
         self.phase = ["start"] * n    # start | install | files | running | exit | done | failed
 
     def emit(self, tok):
-        self.tr[self.s.pid()].append(tok)
-        self.glob.append((self.s.pid(), tok, PIN in self.w.pins))
+        pid = self.s.pid()
+        self.tr[pid].append(tok)
+        self.glob.append((pid, tok, PIN in self.w.pins))
+        if self.removing[pid] is not None:      # the first operation of remove(): the window is no longer in use
+            self.removing[pid]["running"] = False
+            self.removing[pid] = None
+
+    def kill_proc(self, p):
+        """the process dies where it stands: the kernel drops its record locks, nothing is written, it is never scheduled again"""
+        if 0 <= p < len(self.tr):
+            self.s.dead[p] = True
+            for k in [k for k, v in self.w.reclock.items() if v == p]:
+                del self.w.reclock[k]
 
     def kind(self, path):
         if path == PIN:
@@ -446,7 +477,7 @@ class Machine:
 
     def randrange_fm(self, a, b):
         pid = self.s.pid()
-        draws = self.case["cfgs"][pid]["fm"]
+        draws = self.draws[pid]
         k = self.fm_i[pid]
         self.fm_i[pid] += 1
         if k < len(draws):
@@ -770,6 +801,126 @@ def run_impl(case):
     return m, objs, info, obs
 
 
+# ---- histories of FMMULock objects used directly ---------------------------------------------------------------
+# case = {"scripts": [[[op, arg], ...] per participant], "sched": [p >= 0: participant p performs its next call,
+#         -1 - p: participant p is killed], "fm0": hex or None};  ops: ["new", draws] = FMMULock(file),
+#         ["addr", k] = get_next_addr() on the participant's k-th object, ["rm", k] = its remove()
+
+def hist_participant(m, pid, mine, errors):
+    import ebpfcat.lock as lk
+    s = m.s
+    s.local.pid = pid
+    try:
+        for op, arg in m.case["scripts"][pid]:
+            if op == "new":
+                m.draws[pid], m.fm_i[pid] = list(arg), 0
+                fl = lk.FMMULock(FM)
+                # declared facts the oracle works with: the window start at construction and every address handed out
+                mine.append({"fl": fl, "base0": fl.base_addr, "addrs": [], "running": True})
+                continue
+            o = mine[arg] if arg < len(mine) and mine[arg]["running"] else None
+            if o is None or op == "addr":
+                s.gate()
+                if o is not None:
+                    try:
+                        o["addrs"].append(o["fl"].get_next_addr())
+                        m.emit(f"addr:{o['addrs'][-1]}")
+                    except RuntimeError:
+                        m.emit("addr:err")
+                continue
+            m.removing[pid] = o
+            try:
+                o["fl"].remove()
+            except Stop:
+                raise
+            except Exception:      # e.g. the byte could not be read: remove() raises after its unlock
+                pass
+    except Stop:
+        pass
+    except BaseException as e:
+        errors[pid] = f"{type(e).__name__}: {e}"
+    finally:
+        s.finish()
+
+
+def in_use(m, objs):
+    """(window start, addresses handed out) of every object in use: constructed, remove() not begun, owner alive"""
+    return [(o["base0"], list(o["addrs"])) for pid, mine in enumerate(objs) if not m.s.dead[pid] for o in mine if o["running"]]
+
+
+def run_hist(case):
+    m = Machine(case)
+    n = len(case["scripts"])
+    objs = [[] for _ in range(n)]
+    errors = {}
+    with installed(m):
+        threads = [threading.Thread(target=hist_participant, args=(m, pid, objs[pid], errors), daemon=True) for pid in range(n)]
+        for t in threads:
+            t.start()
+        for pid in range(n):
+            m.s.settle(pid)
+        obs = [in_use(m, objs)]
+        for e in case["sched"]:
+            if e < 0:
+                m.kill_proc(-1 - e)
+            elif e < n:
+                m.s.grant(e)
+            obs.append(in_use(m, objs))
+        m.finished = list(m.s.ended)      # before the remaining threads are abandoned
+        m.s.abandon()
+        for t in threads:
+            t.join(30)
+        if any(t.is_alive() for t in threads):
+            raise RuntimeError("participant thread did not end")
+    return m, objs, errors, obs
+
+
+def overlap(wins):
+    """the window clause on declared facts: wins = [(window start, addresses handed out)] of the objects in use"""
+    ws = [(b, b + 4096 * (len(a) + 1)) for b, a in wins]
+    if any(x[0] < y[1] and y[0] < x[1] for i, x in enumerate(ws) for y in ws[i + 1:]):
+        return True
+    gs = [frozenset(c for x in a for c in (x >> 12, (x + 4095) >> 12)) for b, a in wins]
+    return any(x & y for i, x in enumerate(gs) for y in gs[i + 1:])
+
+
+def outside(wins):
+    """an address handed out does not lie (with its whole 4096-byte block) in the process window the object was given"""
+    return any((x >> 22) != (b >> 22) or ((x + 4095) >> 22) != (b >> 22) for b, a in wins for x in a)
+
+
+def show_hist(case, m, objs, fw):
+    parts = []
+    for pid, mine in enumerate(objs):
+        st = "dead" if m.s.dead[pid] else "done" if m.finished[pid] else "active"
+        os_ = ",".join(f"{o['base0'] >> 22}:{len(o['addrs'])}:{o['addrs'][-1] if o['addrs'] else 0}:{sum(o['addrs'])}:"
+                       f"{'R' if o['running'] and not m.s.dead[pid] else '-'}" for o in mine)
+        parts.append(" ".join(m.tr[pid]) + f" # {st} objs=[{os_}]")
+    fm = m.w.fm()
+    node = m.w.lookup(FM)
+    lock = None if node is None else m.w.reclock.get(id(node))
+    opt = lambda x: "-" if x is None else str(x)
+    return " ; ".join(parts) + f" ;; fm={'-' if fm is None else 'x' + fm.hex()} lock={opt(lock)} ;; fw={opt(fw)}"
+
+
+def evaluate_hist(ctx, case):
+    import logging
+    logging.disable(logging.CRITICAL)
+    try:
+        m, objs, errors, obs = run_hist(case)
+    finally:
+        logging.disable(logging.NOTSET)
+    fw = first(obs, overlap)
+    out = first(obs, outside)
+    line = show_hist(case, m, objs, fw)
+    seen = (f"first prefix after which two objects in use overlap: {fw}; objects in use then: "
+            f"{[(b >> 22, len(a)) for b, a in obs[fw]] if fw is not None else None}; errors {errors}")
+    ctx.require(fw is None, "logical address windows of two FMMULock objects in use overlap", case, seen)
+    ctx.require(out is None, "get_next_addr handed out an address outside the object's own process window", case, seen)
+    ctx.require(not errors, "an FMMULock operation raised", case, seen)
+    return line, fw, m
+
+
 def first(obs, bad):
     for k, o in enumerate(obs):
         if bad(o):
@@ -1026,6 +1177,112 @@ def neighbour_family(rng, quick):
     return out
 
 
+def leaver_remove_family(quick):
+    """through the real run(): P0 installs, runs and leaves as the last leaver; its FMMULock.remove() (the last four operations of
+    its exit) is cut after a = 0..4 operations by P1, which starts a new session and goes b operations into / through its
+    FMMULock(...) with a drawn number in the same bitmap byte as P0's (or in another byte, or P0's own number); P0 finishes, P1 runs
+    on, and a third participant P2 joins whose first draw is P1's number.  All call get_fmmu_addr()."""
+    out = []
+    for x, y, z in ((9, 10, 11), (10, 9, 12), (15, 8, 9), (9, 17, 18), (9, 9, 10)):
+        cfgs = [C(fm=[x], naddr=1), C(fm=[y, z], naddr=2), C(et=[12288], fm=[y, z, z + 1], naddr=1)]
+        for a in range(5):
+            for b in (range(9, 15) if not quick else (10, 11, 12, 13, 14)):
+                # installer: 16 operations to running, 6 from `leave` to mbx_remove, then remove(): lock, pread, pwrite, unlock
+                # P1 (a new installer on the existing bitmap file) is running after 14 operations, the joiner P2 after 13 + 1;
+                # turns P1 spends waiting for the lock held by P0 (a = 1..3, from its 11th turn on) are made up for - and the
+                # same schedule without the make-up (what P1 needs when nothing holds it up)
+                wait = max(0, b - 10) if 1 <= a <= 3 else 0
+                for w in {0, wait}:
+                    out.append({"cfgs": cfgs, "sched": [0] * (22 + a) + [1] * b + [0] * 5 + [1] * (14 - b + w) + [2] * 14, "fm0": None})
+    return out
+
+
+def HS(*ops):
+    return [[o[0], list(o[1]) if o[0] == "new" else o[1]] for o in ops]
+
+
+def hist_families(rng, quick):
+    """histories of FMMULock objects used directly (see run_hist); `[p] * k` with k larger than what p has left is harmless:
+    a participant that has finished or waits for the lock does nothing on its turn"""
+    out = []
+    zeros = "00" * 64
+    # (a) remove() of A cut after every operation by the constructor of B (number in the same byte / another byte / A's own
+    #     number), B keeps running; afterwards C arrives whose first draw is B's number
+    for x, y, z in ((9, 10, 11), (10, 9, 12), (15, 8, 9), (9, 17, 18), (9, 9, 10)):
+        scripts = [HS(("new", [x]), ("addr", 0), ("rm", 0)), HS(("new", [y, z]), ("addr", 0), ("addr", 0)),
+                   HS(("new", [y, z, z + 1]), ("addr", 0))]
+        for fm0 in ((zeros,) if quick and x != 9 else (zeros, None)):
+            pre = 6 if fm0 else 8
+            for a in range(5):
+                for b in range(1, 7):
+                    out.append({"scripts": scripts, "sched": [0] * (pre + a) + [1] * b + [0] * 6 + [1] * 10 + [2] * 10, "fm0": fm0})
+    # (b) remove() against remove() in the same byte, a third object in that byte in use throughout, a fourth participant
+    #     allocates afterwards drawing the three numbers
+    scripts = [HS(("new", [9]), ("rm", 0)), HS(("new", [10]), ("rm", 0)), HS(("new", [11]), ("addr", 0)),
+               HS(("new", [11, 10, 9]), ("addr", 0))]
+    for a in range(5):
+        for b in range(1, 6):
+            for p, q in ((0, 1), (1, 0)):
+                out.append({"scripts": scripts, "sched": [0] * 7 + [1] * 5 + [2] * 6 + [p] * a + [q] * b + [p] * 6 + [q] * 6 + [3] * 8,
+                            "fm0": None})
+    # (c) restart: A allocates, uses, releases and allocates again with the same draw, B's constructor cuts in at every point,
+    #     C arrives last;  (d) two objects in one participant, B allocating between and during A's operations
+    for scripts, n0 in (([HS(("new", [9]), ("addr", 0), ("rm", 0), ("new", [9, 12]), ("addr", 1)), HS(("new", [9, 10]), ("addr", 0)),
+                          HS(("new", [9, 10, 12, 13]), ("addr", 0))], 19),
+                        ([HS(("new", [9]), ("new", [10, 12]), ("addr", 0), ("addr", 1), ("rm", 0), ("new", [9, 13]), ("addr", 2)),
+                          HS(("new", [10, 9, 11]), ("addr", 0)), HS(("new", [9, 10, 11, 12, 13, 14]), ("addr", 0))], 27)):
+        for k in range(0, n0, 2 if quick else 1):
+            for j in (2, 4, 6):
+                out.append({"scripts": scripts, "sched": [0] * k + [1] * j + [0] * (n0 + 2) + [1] * 8 + [2] * 8, "fm0": None})
+    # (e) a participant is killed at every point of its constructor / its remove(); two others then allocate concurrently
+    scripts = [HS(("new", [9]), ("addr", 0), ("rm", 0)), HS(("new", [9, 10]), ("addr", 0)), HS(("new", [9, 10, 11]), ("addr", 0))]
+    for fm0 in (None, zeros):
+        for k in range(0, 13):
+            out.append({"scripts": scripts, "sched": [0] * k + [-1] + [1] * 3 + [2] * 3 + [1] * 8 + [2] * 8, "fm0": fm0})
+            out.append({"scripts": scripts, "sched": [0] * k + [1] * 3 + [-1] + [2] * 3 + [1] * 8 + [2] * 8, "fm0": fm0})
+    return out
+
+
+POOL = [9, 9, 10, 10, 11, 12, 15, 16, 17, 1, 511, 0, 512]
+
+
+def gen_hist(rng):
+    n = rng.choice([2, 3, 3, 4])
+    scripts = []
+    for _ in range(n):
+        sc, made = [], 0
+        for _ in range(rng.randrange(1, 7)):
+            r = rng.random()
+            if made == 0 or r < 0.4:
+                sc.append(["new", [rng.choice(POOL) for _ in range(rng.randrange(0, 4))]])
+                made += 1
+            elif r < 0.7:
+                sc.append(["rm", rng.randrange(made + (rng.random() < 0.1))])
+            else:
+                sc.append(["addr", rng.randrange(made + (rng.random() < 0.1))])
+        scripts.append(sc)
+    r = rng.random()
+    if r < 0.5:
+        fm0 = None
+    elif r < 0.85:
+        b = bytearray(64)
+        for _ in range(rng.randrange(0, 5)):
+            k = rng.choice(POOL) % 512
+            b[k // 8] |= 1 << (k % 8)
+        fm0 = b.hex()
+    else:
+        fm0 = bytes(rng.randrange(256) for _ in range(rng.choice([0, 1, 2, 63, 65]))).hex()
+    sched = []
+    fine = rng.random() < 0.5
+    for _ in range(rng.randrange(10, 30 * n)):
+        p = rng.randrange(n)
+        if rng.random() < 0.01:
+            sched.append(-1 - p)
+        else:
+            sched += [p] * (1 if fine else rng.choice([1, 1, 2, 3, 4, 5, 7]))
+    return {"scripts": scripts, "sched": sched, "fm0": fm0}
+
+
 def run(ctx):
     cases = []
     cases += neighbour_family(ctx.rng, ctx.quick)
@@ -1049,15 +1306,24 @@ def run(ctx):
             cases.append({"cfgs": [C(), C(et=[12288], fm=[2]), C(et=[12289], fm=[3])], "crash": [0],
                           "sched": [0] * k + [ctx.rng.choice([1, 1, 2, 2, 1, 2, 1]) for _ in range(70)], "fm0": None})
     cases += fmmu_family(ctx.quick)
+    cases += leaver_remove_family(ctx.quick)
+    cases += hist_families(ctx.rng, ctx.quick)
+    for _ in range(ctx.n(400, 12000)):
+        cases.append(gen_hist(ctx.rng))
     for _ in range(ctx.n(500, 20000)):
         cases.append(gen(ctx.rng))
     cases += [dict(w) for w in FORMER_WITNESSES]
     cases += [dict(w) for w in WITNESSES.values()]      # last: a new failure is first reported on a case the unchanged tree passes
     lines = []
     for c in cases:
-        line, v, pr, m = evaluate(ctx, c)
-        lines.append(line)
-        ctx.case(c, nontrivial=nontrivial(m), kind=kind_of(v, pr, m))
+        if "scripts" in c:
+            line, fw, m = evaluate_hist(ctx, c)
+            lines.append(line)
+            ctx.case(c, nontrivial=nontrivial(m), kind="hist:clean" if fw is None else "hist:viol")
+        else:
+            line, v, pr, m = evaluate(ctx, c)
+            lines.append(line)
+            ctx.case(c, nontrivial=nontrivial(m), kind=kind_of(v, pr, m))
         for tr in m.tr:
             for t in tr:
                 ctx.stats["op:" + t.split(":")[0]] += 1
@@ -1068,6 +1334,9 @@ def run(ctx):
 
 
 def replay(ctx, case):
+    if "scripts" in case:
+        line, fw, m = evaluate_hist(ctx, case)
+        return {"result": line, "first_overlap": fw}
     line, v, pr, m = evaluate(ctx, case)
     return {"result": line, "violations": v, "classes": sorted(k for k, b in pr.items() if b)}
 
@@ -1079,7 +1348,12 @@ LEVEL_TEXT = ("Lean 4 proof over a hand-written model of ParallelEtherCat.run wi
               "calls, and so are the blocks named by the addresses get_fmmu_addr hands out, each of which carries the participant's full process number "
               "(invariant proof, no hypothesis; repaired in /repo); installed-while-running is REFUTED on concrete witness schedules "
               "(last-leaver/new-starter race, stale programs file after a joiner's clean-up) and proved for the remainder (no start-section "
-              "operation while a last leaver is between rmdir and remove(programs) and no rename succeeding over an old programs file). Tie: "
+              "operation while a last leaver is between rmdir and remove(programs) and no rename succeeding over an old programs file). "
+              "Second model Ebv.FmmuLock for FMMULock used directly: any number of participants, each any script of FMMULock(...) / "
+              "get_next_addr() / remove() (restarts, several objects), interleaved system call by system call, kills at any point, any earlier "
+              "file contents: windows of objects in use pairwise disjoint, addresses handed out inside the own window, the bitmap exact (owner's "
+              "bit set; a set bit was set at the start or has an owner), remove() clears its own bit and preserves everybody else's "
+              "(invariant proofs); without the lock around remove()'s read-modify-write the window clause is REFUTED on a witness schedule. Tie: "
               "the real coroutines of several participant objects driven in one process over an emulated fs/bpf/netlink layer under the same "
               "schedules, exact equality of traces, final state, first violating prefixes and the theorem's schedule hypothesis.")
 LEVEL_NOTE = ("partial: trusted are the Lean kernel + standard axioms, the hand transcription (validated by differential runs, not verified), "
